@@ -106,7 +106,9 @@ def run(ctx):
         "distinct_nontrivial": st["lines"],
         "rule": "sequential: every call sequence over a reduced alphabet (2 keys x {plain, Replace, Suspended} x {simple, expired run-once} "
                 "triggers, delete/pause/resume, clear, nil trigger) exhaustively to depth 4 on never-started/stopped schedulers and depth 3 on "
-                "started ones, the full alphabet (4 keys x 4 option sets x 4 trigger kinds, nil/empty arguments, get, keys) to depth 2, random "
+                "started ones, the full alphabet (4 keys x 4 option sets x 4 trigger kinds, nil/empty arguments, get, keys) to depth 2, scripted "
+                "triggers returning math.MaxInt64 / MaxInt64-1 / MinInt64 / MaxInt64 then MaxInt64-1 with a nil error (2 keys x 3 option sets, "
+                "delete/pause/resume/get, clear) to depth 3 (depth 2 on started schedulers, without MinInt64) and in the random sequences, random "
                 "sequences of 60 calls; default, copying and two-scheduler shared queue; each result (errors.Is class), the trigger calls "
                 "(prev, result) and the registry (GetJobKeys + GetScheduledJob per key: suspended, fire time, trigger) compared with the "
                 "extracted Coq model and with the registry specification; non-trivial = a distinct call sequence. concurrent: rounds of 8 "
